@@ -151,6 +151,8 @@ def rules_for_body(v, bs, sk_named):
         for bb in sorted(body):
             for st in v.blocks[bb]["stmts"]:
                 if st["k"] == "assign" and st["rv"]["k"] in ("ref", "rawptr", "discr") and st["rv"]["place"]["l"] in allowed:
+                    if st["rv"]["k"] != "discr" and flow.borrow_only_moves(v, st["rv"]["place"]["l"]):
+                        continue
                     ob += 1
                     out.append(finding("C15.DISJ", v, "whether an error was already recorded is looked at while the members are still being visited (the outcome depends on which member comes first)", bb))
         # field states are written, never read, inside the loop
